@@ -359,7 +359,7 @@ Proof.
       destruct (link_format_from_message b); [|inv EH; reflexivity]. destruct (_update_params st z remote q) as [st2 res] eqn:EU.
       destruct (_update_params_frame _ _ _ _ _ _ EU) as (Bk & _). destruct res; inv EH; [exact Bk|]. cbn [by_key set_obj]. exact Bk. }
     rewrite <- Ebk in Hne. pose proof (drain_count_pos st1 I1 Hne).
-    assert (0 <= match r, lookup_path st path with Changed, Some id => if reg_changed (obj st id) (obj st1 id) then 1 else 0 | _, _ => 0 end).
+    assert (0 <= match r, lookup_path st path with Changed, Some id => (if reg_changed (obj st id) (obj st1 id) then 1 else 0) + 1 | _, _ => 0 end).
     { destruct r; try lia. destruct (lookup_path st path); [|lia]. destruct (reg_changed _ _); lia. }
     lia.
   - cbn [handle] in EH. destruct (lookup_path st path) as [tid|] eqn:EP.
@@ -378,3 +378,106 @@ Qed.
 Lemma listing_changes_notified_reachable : forall st o st' r, reachable st -> nonneg_time o -> step st o = (st', r) ->
   by_key st' <> by_key st -> 0 < notify_count st o.
 Proof. intros st o st' r R NN H Hne. destruct (reachable_Inv st R) as [I S]. eapply notified_when_listing_changes; eauto. Qed.
+
+(* ------------------------------------------------------------------ round 5b: every change of what the lookups show is announced *)
+Definition vis (r : reg) := (r_path r, r_params r, r_base r, r_links r).
+Lemma vis_links a b : vis a = vis b -> get_host_link a = get_host_link b /\ get_based_links a = get_based_links b.
+Proof. destruct a, b. unfold vis. cbn. intros H. inv H. split; reflexivity. Qed.
+
+Lemma list_eqb_eq {A} (eqb : A -> A -> bool) (spec : forall a b, eqb a b = true -> a = b) l1 l2 : list_eqb eqb l1 l2 = true -> l1 = l2.
+Proof.
+  revert l2. induction l1 as [|x l1 IH]; intros [|y l2]; cbn; intros H; try discriminate; [reflexivity|].
+  apply andb_prop in H. destruct H as [H1 H2]. rewrite (spec _ _ H1), (IH _ H2). reflexivity.
+Qed.
+Lemma query_eqb_eq a b : query_eqb a b = true -> a = b.
+Proof.
+  apply list_eqb_eq. intros [k1 v1] [k2 v2] H. cbn [fst snd] in H. apply andb_prop in H. destruct H as [H1 H2].
+  apply String.eqb_eq in H1. apply olist_eqb_eq in H2. subst. reflexivity.
+Qed.
+Lemma reg_unchanged_fields r r' : reg_changed r r' = false -> r_lt r = r_lt r' /\ r_base r = r_base r' /\ r_params r = r_params r'.
+Proof.
+  unfold reg_changed. intros H. apply orb_false_iff in H. destruct H as [H H3]. apply orb_false_iff in H. destruct H as [H1 H2].
+  apply negb_false_iff in H1, H2, H3. apply String.eqb_eq in H2. apply query_eqb_eq in H3. split; [lia|auto].
+Qed.
+
+Lemma key_list_dec (a b : list (key * Z)) : {a = b} + {a <> b}.
+Proof. repeat decide equality. Qed.
+
+Lemma plain_lookups_of_vis st st' : by_key st' = by_key st ->
+  (forall k id, In (k, id) (by_key st) -> vis (obj st' id) = vis (obj st id)) ->
+  ep_lookup st' [] None = ep_lookup st [] None /\ res_lookup st' [] None = res_lookup st [] None.
+Proof.
+  intros Ebk V. rewrite !ep_lookup_plain, !res_lookup_plain. unfold get_endpoints. rewrite Ebk.
+  assert (E1 : map get_host_link (map (fun kv : key * Z => obj st' (snd kv)) (by_key st)) = map get_host_link (map (fun kv : key * Z => obj st (snd kv)) (by_key st))).
+  { rewrite !map_map. apply map_ext_in. intros [k id] H. cbn [snd]. apply (vis_links _ _ (V k id H)). }
+  assert (E2 : flat_map get_based_links (map (fun kv : key * Z => obj st' (snd kv)) (by_key st)) = flat_map get_based_links (map (fun kv : key * Z => obj st (snd kv)) (by_key st))).
+  { rewrite !flat_map_concat_map, !map_map. f_equal. apply map_ext_in. intros [k id] H. cbn [snd]. apply (vis_links _ _ (V k id H)). }
+  rewrite E1, E2. split; reflexivity.
+Qed.
+
+Lemma drain_keeps_objects st : Inv st -> forall k id, In (k, id) (by_key (drain st)) -> obj (drain st) id = obj st id.
+Proof. intros I k id H. unfold drain in *. destruct (fire_due_frame (length (objs st)) st (now st) I) as [A _]. apply (A _ _ H). Qed.
+
+(* if no change callback runs during a step, both unfiltered lookups show afterwards exactly what they showed before *)
+Lemma silent_step_shows_the_same st o st' r : Inv st -> Settled st -> nonneg_time o -> step st o = (st', r) ->
+  notify_count st o = 0 -> ep_lookup st' [] None = ep_lookup st [] None /\ res_lookup st' [] None = res_lookup st [] None.
+Proof.
+  intros I S NN Hs N0.
+  destruct (key_list_dec (by_key st') (by_key st)) as [Ebk|Ne].
+  2:{ pose proof (notified_when_listing_changes st o st' r I S NN Hs Ne). lia. }
+  apply plain_lookups_of_vis; [exact Ebk|]. intros k id Hin.
+  unfold step in Hs. unfold notify_count in N0. destruct (handle st o) as [st1 r1] eqn:EH. injection Hs as <- <-.
+  destruct (handle_Inv _ _ _ _ I EH) as (I1 & _ & _).
+  pose proof (drain_count_nonneg st1 I1) as NNeg.
+  assert (Same : st1 = st -> vis (obj (drain st1) id) = vis (obj st id)).
+  { intros ->. rewrite (drain_id st S). reflexivity. }
+  destruct o as [remote q b|path remote q b|path remote q b|path|path accept|q accept|q accept|dt].
+  - destruct r1 as [loc| | |txt| |e|];
+      try (exfalso; cbn [handle] in EH; unfold directory_render_post in EH; repeat break_match; inv EH; fail).
+    + destruct (blen (by_key st1) =? blen (by_key st)); lia.
+    + apply Same. eapply handle_err_unchanged; [exact I| |exact EH]. reflexivity.
+  - cbn [handle] in EH. destruct (lookup_path st path) as [tid|] eqn:EP; [|injection EH as <- <-; apply Same; reflexivity].
+    unfold registration_render_post in EH. destruct (_ || _); [injection EH as <- <-; apply Same; reflexivity|].
+    destruct (_update_params st tid remote q) as [st2 res] eqn:EU. destruct (_update_params_frame _ _ _ _ _ _ EU) as (Bk & _ & Ob).
+    destruct res as [e|]; injection EH as <- <-.
+    + apply Same. destruct (lookup_path_In _ _ _ EP) as (p & Hp & _).
+      destruct (_update_params_Inv st tid remote q st2 (Some e) I (ex_intro _ p Hp) EU) as (_ & _ & F & _).
+      apply (F e eq_refl). rewrite (_update_params_err _ _ _ _ _ _ EU). reflexivity.
+    + destruct (reg_changed (obj st tid) (obj st2 tid)) eqn:RC; [lia|].
+      assert (Hd : In (k, id) (by_key (drain st2))) by (rewrite Ebk; exact Hin).
+      rewrite (drain_keeps_objects st2 I1 k id Hd).
+      destruct (Z.eq_dec id tid) as [->|Nid]; [|rewrite (Ob id Nid); reflexivity].
+      destruct (reg_unchanged_fields _ _ RC) as (_ & Eb & Ep).
+      unfold _update_params in EU. destruct (update_params (obj st tid) remote (query_split q) false (now st) (next_seq st)) as [r'|r' e'] eqn:EUP; inv EU.
+      destruct (update_params_ok _ _ _ _ _ _ _ EUP) as (_ & Epath & Elinks & _).
+      assert (Eo : obj {| objs := dset Z.eqb (objs st) tid r'; by_key := by_key st; by_path := by_path st; now := now st; next_id := next_id st;
+                          next_seq := next_seq st + 1; loop_exceptions := loop_exceptions st |} tid = r').
+      { unfold obj. cbn [objs]. rewrite (dget_dset_same Z.eqb Zeqb_spec). reflexivity. }
+      rewrite Eo in *. unfold vis. rewrite Epath, Elinks, <- Eb, <- Ep. reflexivity.
+  - cbn [handle] in EH. destruct (lookup_path st path) as [tid|] eqn:EP; [|injection EH as <- <-; apply Same; reflexivity].
+    unfold registration_render_put in EH. destruct (link_format_from_message b) as [links|e]; [|injection EH as <- <-; apply Same; reflexivity].
+    destruct (_update_params st tid remote q) as [st2 [e|]] eqn:EU; injection EH as <- <-.
+    + apply Same. destruct (lookup_path_In _ _ _ EP) as (p & Hp & _).
+      destruct (_update_params_Inv st tid remote q st2 (Some e) I (ex_intro _ p Hp) EU) as (_ & _ & F & _).
+      apply (F e eq_refl). rewrite (_update_params_err _ _ _ _ _ _ EU). reflexivity.
+    + destruct (reg_changed _ _); lia.
+  - cbn [handle] in EH. destruct (lookup_path st path) as [tid|] eqn:EP; [|injection EH as <- <-; apply Same; reflexivity].
+    destruct (lookup_indexed st path tid I EP) as [Hk _]. unfold registration_render_delete in EH.
+    destruct (Inv_indexed_delete st tid _ I Hk) as [Ed _]. rewrite Ed in EH. injection EH as <- <-. lia.
+  - cbn [handle] in EH. destruct (lookup_path st path); injection EH as <- <-; apply Same; reflexivity.
+  - cbn [handle] in EH. injection EH as <- <-. apply Same. reflexivity.
+  - cbn [handle] in EH. injection EH as <- <-. apply Same. reflexivity.
+  - cbn in NN. cbn [handle] in EH. injection EH as <- <-.
+    rewrite (drain_id (advance st dt)) in * by (apply advance_Settled; assumption).
+    unfold advance in *. unfold obj. cbn [objs with_now by_key] in *.
+    destruct (fire_due_frame (length (objs st)) st (now st + dt) I) as [A _].
+    assert (Hd : In (k, id) (by_key (fire_due (length (objs st)) st (now st + dt)))) by (rewrite Ebk; exact Hin).
+    destruct (A _ _ Hd) as [_ Eo]. unfold obj in Eo. rewrite Eo. reflexivity.
+Qed.
+
+Lemma lookup_changes_notified_reachable : forall st o st' r, reachable st -> nonneg_time o -> step st o = (st', r) ->
+  (ep_lookup st' [] None <> ep_lookup st [] None \/ res_lookup st' [] None <> res_lookup st [] None) -> notify_count st o <> 0.
+Proof.
+  intros st o st' r R NN Hs Hd N0. destruct (reachable_Inv st R) as [I S].
+  destruct (silent_step_shows_the_same st o st' r I S NN Hs N0) as [E1 E2]. destruct Hd as [Hd|Hd]; contradiction.
+Qed.
